@@ -1,6 +1,6 @@
 Require Extraction.
 Require Import ExtrOcamlBasic.
 From Coq Require Import NArith ZArith List.
-From CppcmsV Require Import C07.Defs C07.Ifc.
+From CppcmsV Require Import C07.Defs C07.Ifc C07.HashMap.
 Definition keep_types : (N * Z * nat) := (0%N, 0%Z, 0%nat).
-Extraction "c07m.ml" keep_types N.add N.mul N.div_eucl run init step stats store fetch rise remove clear check_limits i_step i_run i_init.
+Extraction "c07m.ml" keep_types N.add N.mul N.div_eucl run init step stats store fetch rise remove clear check_limits i_step i_run i_init h_run h_step h_empty string_hash.
